@@ -133,22 +133,27 @@ class RuntimeAssertionFeedback(AssertionFeedback):
         right.set_report(self.report)
         # Get contexts
         contexts = self.get_sandbox_contexts([left, right])
+        # These three only shape the message: they must not reach the condition as keyword arguments
+        context = kwargs.pop('context', None)
+        assertion = kwargs.pop('assertion', None)
+        explanation = kwargs.pop('explanation', None)
         # Calculate the context_message
-        if kwargs.get('context') is False:
+        if context is False:
             context_message = ""
-        elif kwargs.get('context') is not None:
-            context_message = kwargs['context']
+        elif context is not None:
+            context_message = context
         else:
             context_message = format_contexts(contexts, self.report.format)
         # Calculate the assertion_message
-        if kwargs.get('assertion') is False:
+        if assertion is False:
             assertion_message = ""
-        elif kwargs.get('assertion') is not None:
-            assertion_message = kwargs['assertion'] + "\n"
+        elif assertion is not None:
+            assertion_message = assertion + "\n"
         else:
             assertion_message = self.format_assertion(left, right, contexts)
         # Calculate explanation
-        explanation = kwargs.get("explanation", "")
+        if explanation is None:
+            explanation = ""
         # Add in new fields
         fields = kwargs.setdefault('fields', {})
         fields['left'] = left.value
